@@ -54,6 +54,20 @@ Theorem C14_typed_roundtrip_iff :
       (from_json F F32 f2z narrow t (to_json F F32 of_int widen t v) = Ok v <-> lossless F F32 of_int f2z t v).
 Proof. exact typed_roundtrip_iff. Qed.
 
+(* the advertised API: humphrey_json::from_str(&humphrey_json::to_string(&v)) = v, by composition with C13's round trip
+   (numbers of the JSON value finite, strings made of code points, nesting within Value::parse's limit) *)
+Theorem C14_typed_text_roundtrip :
+  forall (F F32 : Type) (of_int : Z -> F) (f2z : F -> Z) (widen : F32 -> F) (narrow : F -> F32)
+         (fparse : str -> option F) (fdisplay : F -> str) (ffinite : F -> Prop),
+    (forall x : F32, narrow (widen x) = x) ->
+    (forall x, ffinite x -> JNumber (fdisplay x)) ->
+    (forall x, ffinite x -> fparse (fdisplay x) = Some x) ->
+    forall (t : ty) (v : rval F F32),
+      wf_ty t -> has_type F F32 v t -> lossless F F32 of_int f2z t v ->
+      serialisable F ffinite (to_json F F32 of_int widen t v) -> depth (to_json F F32 of_int widen t v) <= MAX_DEPTH ->
+      from_str F F32 f2z narrow fparse t (to_string F F32 of_int widen fdisplay t v) = Ok v.
+Proof. exact typed_text_roundtrip. Qed.
+
 (* ---------------- typed mapping: documented shape ---------------- *)
 
 (* a named struct maps to an object whose members are, in declaration order, (field name or rename, to_json of the field) *)
@@ -116,6 +130,28 @@ Proof. exact denote_iff. Qed.
 Theorem C14_macro_denote :
   forall (F : Type) (t : tt F) (v : value F), denote F t = Some v -> json_macro F false [t] = Ok v.
 Proof. exact macro_denote. Qed.
+
+(* "... evaluates to the same value as parsing the equivalent JSON text": `render` (JsonMacro.v) writes the RFC 8259 text of a
+   literal (expressions as the JSON text of their value, keys as JSON strings, trailing commas dropped).  For every literal of
+   the grammar that text IS a JSON text denoting the literal's value (JText: C13's RFC 8259 relation), and C13's model of
+   Value::parse returns exactly what the macro evaluates to.  Hypotheses: C13's two facts about f64 printing / parsing;
+   serialisable = numbers finite, strings made of code points; nesting within Value::parse's MAX_DEPTH. *)
+Theorem C14_literal_text_valid :
+  forall (F : Type) (fparse : str -> option F) (fdisplay : F -> str) (ffinite : F -> Prop),
+    (forall x, ffinite x -> JNumber (fdisplay x)) ->
+    (forall x, ffinite x -> fparse (fdisplay x) = Some x) ->
+    forall (t : tt F) (v : value F),
+      Lit F t v -> serialisable F ffinite v -> JText fparse (render F fdisplay t) v.
+Proof. exact render_text. Qed.
+
+Theorem C14_macro_equals_parse :
+  forall (F : Type) (fparse : str -> option F) (fdisplay : F -> str) (ffinite : F -> Prop),
+    (forall x, ffinite x -> JNumber (fdisplay x)) ->
+    (forall x, ffinite x -> fparse (fdisplay x) = Some x) ->
+    forall (t : tt F) (v : value F),
+      Lit F t v -> serialisable F ffinite v -> depth v <= MAX_DEPTH ->
+      parse fparse (render F fdisplay t) = json_macro F false [t].
+Proof. exact macro_equals_parse. Qed.
 
 (* the literals that #[derive(IntoJson)] and json_map! write for a named struct evaluate to the object of C14_shape_struct:
    the typed mapping of structs goes through the macro, and the macro does not lose members *)
@@ -226,6 +262,7 @@ Proof. vm_compute. reflexivity. Qed.
 Print Assumptions C14_typed_roundtrip.
 Print Assumptions C14_typed_roundtrip_values.
 Print Assumptions C14_typed_roundtrip_iff.
+Print Assumptions C14_typed_text_roundtrip.
 Print Assumptions C14_shape_struct.
 Print Assumptions C14_shape_tuple.
 Print Assumptions C14_shape_enum.
@@ -234,6 +271,8 @@ Print Assumptions C14_missing_key_is_none.
 Print Assumptions C14_macro_sound.
 Print Assumptions C14_denote_iff_lit.
 Print Assumptions C14_macro_denote.
+Print Assumptions C14_literal_text_valid.
+Print Assumptions C14_macro_equals_parse.
 Print Assumptions C14_derive_literal.
 Print Assumptions C14_json_map_literal.
 Print Assumptions C14_macro_old_refuted.
